@@ -242,12 +242,20 @@ def run(ctx):
             if sum(1 for q in f.params if re.search(r"\b%s\b" % re.escape(tn), q.get("type") or "")) != 1:
                 continue  # the parameter's type is deduced from another argument as well: lvalues cannot bind
             nfw += 1
-            moved = [(n.get("ln"), fmt(n)) for _, _, e in f.roots() for n in walk(e["expr"]) if n.get("k") == "call" and (n.get("name") or "") in ("std::move", "move")
+            moved = [(n.get("ln"), fmt(n)) for _, _, e in f.all_elems() if e.get("expr") is not None for n in walk(e["expr"])
+                     if n.get("k") == "call" and (n.get("name") or "") in ("std::move", "move", "std::make_move_iterator", "make_move_iterator", "std::move_backward", "std::move_if_noexcept")
                      and any(isinstance(r, dict) and r.get("k") == "ref" and r.get("decl") == "param:" + p0["name"] for a in n.get("args", []) for r in walk(a))]
+            moved += [(n.get("ln"), fmt(n)) for _, _, e in f.all_elems() if e.get("expr") is not None for n in walk(e["expr"])
+                      if n.get("k") == "construct" and "move_iterator" in (n.get("name") or n.get("type") or "")
+                      and any(isinstance(r, dict) and r.get("k") == "ref" and r.get("decl") == "param:" + p0["name"] for a in n.get("args", []) for r in walk(a))]
             ctx.check(not moved, "R07.6", f, "forwarded-not-moved:%s:%s" % (C06._sig(f), p0["name"]),
                       "%s passes its forwarding-reference parameter `%s` on with %s: an lvalue argument is moved from - `v.%s(v[0])` empties an element of the container itself and appending the "
                       "same named value twice stores an empty second element" % (f.name, p0["name"], moved[0][1] if moved else "", f.name), (f, moved[0][0] if moved else None), why_ok="only forwarded")
     ctx.need("R07.6", "forwarding-reference parameters of fixed_vector members", nfw, 2)
+    # the bookkeeping members are as wide as what the constructors are given
+    ctx.rule("R07.9", "size_ / capacity_ are stored at least as wide as the constructor's capacity parameter (a capacity of 2^32 or more is not reduced modulo 2^32)")
+    from .common import rule_no_narrowing
+    rule_no_narrowing(ctx, "R07.9", FV, "the requested capacity is truncated while the storage is allocated at full size: capacity() and every bound differ from the list bounded by the requested capacity", minimum=1)
     # a range insert/append traverses [first, last) once: the iterator type is unconstrained, an input-iterator range is
     # consumed by the first walk (std::distance, a counting loop) and a second walk (std::copy) reads nothing new
     for f in methods:
